@@ -29,6 +29,8 @@ RULE = ("one PRNG (VERIF_SEED) draws a DAG of 3-12 nodes (quick; up to 30 thorou
         "(thorough: up to 700) memos, a few links being small diamonds; a 'dynamic' family has memos (and effects) whose bodies "
         "create further memos (ArcMemo / arena Memo) at run time, re-created by every run of their creator (oracle only). "
         "Since the anchor coverage audit half of the cases of every stream carry API VARIANTS on their nodes (fields the model's decoder does not read, so the traces are still compared with the model): every signal / memo / wrapper is read through one of get, with, *read(), track() + get_untracked(), try_get (and the untracked siblings); every signal is written through one of set, update, maybe_update(true), a write() guard, try_set, try_update, a SignalSetter (from(WriteSignal) / from(RwSignal) / map), update_untracked + notify, a MappedSignal / ArcMappedSignal view, write_untracked + notify (and notified through notify(), an untouched write guard or update(|_| {})); memos are built with new / new_with_compare, new_owning (the body returns the changed flag) or as the other handle type and converted; derived signals also as MaybeSignal::derive, MaybeProp (from / derive), Signal<Option<T>>::from, Signal::from(MaybeSignal), derive_local / stored_local / Signal<_, LocalStorage>::from, From<T>; effects also as Effect::new_sync, Effect::watch_sync, RenderEffect::new_isomorphic / new_with_value, ImmediateEffect::new_isomorphic / new_scoped / new_mut; an effect is also disposed through Dispose::dispose / Effect::stop on its handle; a case flag makes the executor hand out a NEW waker on every poll (older wakers are dead) and another one switches untrack to untrack_with_diagnostics. A 'wide' family has 17-40 direct subscribers on one signal; a 'silent' family (oracle only) interleaves operations that are NOT writes (maybe_update returning false, write().untrack(), try_maybe_update -> (false, _), update_untracked(|_| {}), a dropped write_untracked guard): values must stay. "
+        "A 'threads' family (oracle only, 12 cases) reads an ArcMemo on another thread right after a write while a third thread holds a read guard "
+        "of it or of the memo below it ((12 g r s v)): the read may wait for the guard but must return the current value. "
         "A case is non-trivial when some memo body ran at least twice; distinct = distinct case hash.")
 TRUSTED = [
     "Coq 8.16.1 kernel (coqc); no axioms: every theorem of Properties_C01.v is 'Closed under the global context'",
@@ -47,7 +49,8 @@ TRUSTED = [
     "API variants (coverage/C01.md, C09.md, C02.md): the variant fields of a case are ignored by the model's decoder (GraphRun.dec_decl / dec_op read the fields before them), so the model runs the construct each variant must be equivalent to (get for every read path, set for every write path, Effect::new for new_sync, Effect::watch for watch_sync, RenderEffect::new for new_isomorphic / new_with_value, owner cleanup for Dispose::dispose / Effect::stop); that equivalence is COMPARED (trace equality on every run) and judged by the Python oracle, NOT PROVED: the theorems speak about the modelled constructs",
 ]
 ASSUMPTIONS = [
-    "single thread; user closures are deterministic and pure (memo bodies do not write signals)",
+    "single thread (except the fixed three-thread scenario of the 'threads' family: guard holder, writer, reader, sequenced by channels; "
+    "cross-thread behaviour in general is C19's ground); user closures are deterministic and pure (memo bodies do not write signals)",
     "the dependency graph is a DAG given by creation order (node i reads only nodes j < i)",
     "a memo whose comparator is coarser than equality always holds what its function gives; its subscribers are, by design, "
     "not re-run for a change the comparator ignores: 'current value' of such a source means 'current up to its comparator'",
@@ -96,6 +99,10 @@ def _main_stream(rng, tier):
         if i % 2:
             X.add_variants(rng, wc[0], 0.3)
         yield dict(case=C.norm(wc), kind="wide", compare=True)
+    # a memo read on another thread while a third thread holds a read guard of it: the read may wait for the guard, but
+    # must return the current value (oracle only; each case takes ~0.15 s per guarded read that has to wait)
+    for i in range(12 if tier == "quick" else 60):
+        yield dict(case=C.norm(X.gen_threads_case(rng)), kind="threads", compare=False)
     # operations that are NOT writes (maybe_update returning false, write().untrack(), ...): values must stay
     for i in range(600 if tier == "quick" else 6000):
         prog = X.gen_program(rng, rng.randint(3, 9), rng.choice([0, 0, 1]), allow_wr=False, p_der=0.25)
